@@ -29,22 +29,21 @@ Proof.
   assert (Hrs : forall r, rs = Some r -> rooted tr pd (rs_secret r)).
   { intros r E. unfold rs in E. destruct tr; try discriminate. exact (proj2 (Hr r E)). }
   destruct (pv_run tr pd eph rs m2 m4) as [f|req sh|sid k|] eqn:E.
-  - unfold g_verify_failed. destruct tr; [apply g_inv_dead|repeat split; assumption|].
-    destruct (gs_live st); [apply g_inv_dead|repeat split; assumption].
+  - unfold g_verify_failed. destruct tr; [apply g_inv_dead|exact (conj Hk (conj Hr Hl))|].
+    case (gs_live st); [apply g_inv_dead|exact (conj Hk (conj Hr Hl))].
   - exfalso. exact (pv_run_not_send _ _ _ _ _ _ _ _ E).
   - pose proof (done_rooted _ _ _ _ _ _ _ _ Hrs E) as Hroot.
-    repeat split; cbn.
-    + intros ks H; inversion H; subst. exists k. split; [reflexivity|assumption].
-    + destruct tr; intros r H; inversion H; reflexivity.
-    + destruct tr; intros r H; inversion H; subst; cbn; assumption.
+    split; [|split]; cbn.
+    + intros ks G; inversion G; subst. exists k. split; [reflexivity|assumption].
+    + destruct tr; intros r0 G; inversion G; subst; cbn. split; [reflexivity|assumption].
     + intros _; discriminate.
-  - unfold g_verify_failed. destruct tr; [apply g_inv_dead|repeat split; assumption|].
-    destruct (gs_live st); [apply g_inv_dead|repeat split; assumption].
+  - unfold g_verify_failed. destruct tr; [apply g_inv_dead|exact (conj Hk (conj Hr Hl))|].
+    case (gs_live st); [apply g_inv_dead|exact (conj Hk (conj Hr Hl))].
 Qed.
 
 Lemma g_drop_inv tr pd st : g_inv tr pd st -> g_inv tr pd (g_drop tr st).
 Proof.
-  intros (Hk & Hr & Hl). unfold g_drop. destruct tr; repeat split; cbn; try (intros; discriminate); auto.
+  intros (Hk & Hr & Hl). unfold g_drop. destruct tr; (split; [|split]); cbn; try (intros; discriminate); auto.
 Qed.
 
 Lemma g_step_inv tr pd st ev : g_inv tr pd st -> g_inv tr pd (g_step tr pd st ev).
@@ -78,8 +77,7 @@ Lemma g_verify_fail_l tr pd st eph m2 m4 :
 Proof.
   intros H. unfold g_verify.
   destruct (pv_run tr pd eph _ m2 m4) as [f|req sh|sid k|] eqn:E; try reflexivity.
-  - exfalso. exact (pv_run_not_send _ _ _ _ _ _ _ _ E).
-  - exfalso. exact (H sid k eq_refl).
+  exfalso. exact (H sid k eq_refl).
 Qed.
 
 Lemma g_failed_not_live tr st : gs_live st = false -> gs_live (g_verify_failed tr st) = false.
